@@ -1456,54 +1456,63 @@ def check_lagrange(res, facts):
 def check_bflysib(res, facts):
     """apply_butterfly has three arms (small input; parallel inside a chunk; sequential inside a chunk).  They are the
     same computation: (lo, hi) pairs of each chunk zipped with every `step`-th root.  Sibling agreement: in every arm the
-    root iterator is roots.step_by(step) with the function's own `roots` and `step`."""
+    root iterator is roots.step_by(step) with the function's own `roots` and `step`.  Arms are looked for in the function,
+    its closures, and same-crate helpers it (or a closure) hands the chunk to, all expressed in apply_butterfly's own terms."""
+    import re as _re
     rule = res.rule("R-BFLYSIB", "every arm of apply_butterfly pairs (lo, hi) with roots.step_by(step)", 6)
+
+    def find(t_, name):
+        out = []
+        if isinstance(t_, tuple) and t_:
+            if t_[0] == "call" and t_[1] == name:
+                out.append(t_)
+            for x in t_:
+                out += find(x, name)
+        return out
     for unit in ("ws", "par"):
         par = [f for f in facts.fns(unit=unit, crate="ark_poly") if f.kind != "Closure" and f.name == "apply_butterfly"]
         if not par:
             rule.bad("ark_poly|%s|apply_butterfly" % unit, "anchor missing")
             continue
         par = par[0]
+
+        def closures(top):
+            return [c for c in facts.fns(unit=unit, crate="ark_poly") if c.kind == "Closure" and c.id.startswith(top.id + "::{closure")]
+        # (host, argument map into apply_butterfly's terms or None)
+        hosts = [(h, None) for h in [par] + closures(par)]
+        for h, _ in list(hosts):
+            for _, ct, callee in DF.local_callees(facts, h):
+                amap = {k + 1: norm(DF.lift_captures(facts, h, DF.expr(h, a, depth=30))) for k, a in enumerate(ct["args"])}
+                for hh in [callee] + closures(callee):
+                    hosts.append((hh, amap))
         n = 0
-        for bb, t in par.calls():
-            if t["f"].get("name") != "for_each":
-                continue
-            env = E(par, t["args"][1])
-            ops = env[2] if isinstance(env, tuple) and env[0] == "agg" else ()
-            for cid in closure_args(par, t):
-                clo = facts.get(cid, unit)
-                if clo is None:
+        for h, amap in hosts:
+            for bb, t in h.calls():
+                if t["f"].get("name") != "for_each" or len(t["args"]) != 2:
                     continue
-
-                def sub(t_):
-                    if not isinstance(t_, tuple) or not t_:
-                        return t_
-                    if t_[0] == "arg" and t_[1] == 1 and t_[2] and isinstance(t_[2][0], str) and t_[2][0].isdigit() and int(t_[2][0]) < len(ops):
-                        base = ops[int(t_[2][0])]
-                        return base if len(t_[2]) == 1 else ("proj", base, t_[2][1:])
-                    return tuple(sub(x) for x in t_)
-                for b2, t2 in clo.calls():
-                    if t2["f"].get("name") != "for_each":
-                        continue
-                    recv = sub(E(clo, t2["args"][0]))
-                    g = sub(E(clo, t2["args"][1]))
-                    key = "ark_poly|%s|apply_butterfly|%s|arm%d" % (unit, cid.rsplit("::", 1)[-1], n)
-                    n += 1
-                    ok = False
-                    why = show(recv)[:160]
-                    if isinstance(recv, tuple) and recv[0] == "call" and recv[1] == "zip" and len(recv[2]) == 2:
-                        r_it = recv[2][1]
-                        if isinstance(r_it, tuple) and r_it[0] == "call" and r_it[1] == "step_by" and r_it[2][1] == A(4):
-                            src = r_it[2][0]
-                            if isinstance(src, tuple) and src[0] == "call" and src[1] in ("iter", "par_iter", "into_par_iter", "into_iter") and src[2][0] == A(3):
-                                ok = True
-                        else:
-                            why = "roots iterator is %s" % show(r_it)[:120]
-                    if ok and g == A(1):
-                        rule.ok(key, "zip(zip(lo, hi), roots.step_by(step)).for_each(g)", clo.loc)
+                recv = norm(DF.lift_captures(facts, h, DF.expr(h, t["args"][0], depth=30)))
+                g = norm(DF.lift_captures(facts, h, DF.expr(h, t["args"][1], depth=30)))
+                if amap:
+                    recv, g = DF.subst_args(recv, amap), DF.subst_args(g, amap)
+                if not find(recv, "zip"):
+                    continue          # the per-chunk traversal itself, not an arm
+                key = "ark_poly|%s|apply_butterfly|arm%d" % (unit, n)
+                n += 1
+                steps = find(recv, "step_by")
+                ok, why = False, show(recv)[:160]
+                for sb in steps:
+                    if len(sb[2]) == 2 and sb[2][1] == A(4):
+                        src = sb[2][0]
+                        while isinstance(src, tuple) and src[0] == "call" and src[1] in ("iter", "par_iter", "into_par_iter", "into_iter") and src[2]:
+                            src = src[2][0]
+                        if src == A(3):
+                            ok = True
                     else:
-                        rule.bad(key, "this arm does not pair the butterflies with every step-th root (%s): its siblings use roots.step_by(step), so the arms compute different transforms whenever step > 1" % why, clo.loc)
-
+                        why = "roots iterator is %s" % show(sb)[:120]
+                if ok and g == A(1):
+                    rule.ok(key, "zip(zip(lo, hi), roots.step_by(step)).for_each(g)", h.loc)
+                else:
+                    rule.bad(key, "this arm does not pair the butterflies with every step-th root (%s): its siblings use roots.step_by(step), so the arms compute different transforms whenever step > 1" % why, h.loc)
 
 def run(ctx, res):
     units = ["ws", "par"]
